@@ -190,6 +190,31 @@ def run(ctx):
                         "Processing references": len(sc.refs), "Matching commits to trees": j["unique_commit_count"]}
                 if finals != want:
                     res.violations.append(vlib.Violation("final progress lines differ from the census", inp, expected=want, observed=finals))
+        # a phase that sits at count 0 for two seconds (git rev-list thinking before its first line; cat-file slow to answer):
+        # the spinner goes round more than once, stdout and the final lines are what they always are
+        for slow in ("rev-list", "cat-file-batch", "for-each-ref"):
+            sc = S.gen_graph(rng, "small")
+            roots = SC.build_roots(sc, [], [])
+            order = sc.enum_random([r["obj"] for r in roots if r["walk"]], rng)
+            rc1, out1, err1, _ = eng.run_fake(sc, order, [], [], extra={"delay_ms": {slow: 2000}}, extra_args=["--json", "--progress"], timeout=120)
+            rc2, out2, err2, _ = eng.run_fake(sc, order, [], [], extra_args=["--json", "--no-progress"])
+            res.case(("slow-start", slow), True)
+            inp = {"args": ["--json", "--progress"], "git %s sleeps before its first byte (ms)" % slow: 2000}
+            if rc1 != rc2 or out1 != out2:
+                res.violations.append(vlib.Violation("with a slow %s --progress changes the outcome" % slow, inp,
+                                                     expected={"rc": rc2, "stdout_bytes": len(out2)}, observed={"rc": rc1, "stdout_bytes": len(out1), "stderr": str(err1)[-300:]}))
+                continue
+            j = json.loads(out1)
+            finals = {}
+            for line in err1.split(b"\n"):
+                m = re.match(rb"(.*?): (\d+) ", line.split(b"\r")[-1])
+                if m:
+                    finals[m.group(1).decode()] = int(m.group(2))
+            want = {"Processing blobs": j["unique_blob_count"], "Processing trees": j["unique_tree_count"],
+                    "Processing commits": j["unique_commit_count"], "Processing annotated tags": j["unique_tag_count"],
+                    "Processing references": len(sc.refs), "Matching commits to trees": j["unique_commit_count"]}
+            if finals != want:
+                res.violations.append(vlib.Violation("final progress lines differ from the census (slow %s)" % slow, inp, expected=want, observed=finals))
         # progress on, a stderr that cannot be written (/dev/full, a read-only descriptor) and phases that outlast several
         # ticker periods (21000 blobs through the fake git): stdout and the exit status are those of --no-progress
         import subprocess as _sp
